@@ -61,6 +61,10 @@ def build_project(root, spec):
         # a page with the SAME file name in every directory (identical relative spelling from different source pages)
         if not (spec.get("no_common_in") == d):
             (src / (dn(d, "common") + ".md")).write_text(f"# Common in {d or 'root'}\n\n## Sub\n")
+    # a page whose name (without extension) is also the name of a DIRECTORY beside it
+    twin = next((d for d in dirs if d and "/" not in d), None)
+    if twin:
+        (src / f"{twin}.md").write_text(f"# Twin of directory {twin}\n")
     # a page none of whose headings is within the anchor depth: it has no slug table at all
     (src / "flat.md").write_text("#### Flat deep only\n\ntext\n")
     links = []
@@ -118,6 +122,11 @@ def build_project(root, spec):
             add(f"[{{M}} d](/{dn(td, f'f{i}.txt')})", kind="file", target=dn(td, f"f{i}.txt"), explicit=True, spelling="file-abs")
             # existing page, missing anchor
             add(f"[{{M}} t]({rel}#nope{k + 1})", kind="missing-anchor", target=tname, explicit=True, spelling="rel", missing=f"nope{k + 1}")
+        if twin:
+            trel = posixpath.relpath(twin + ".md", sd or ".")[:-3]
+            add(f"[{{M}} *x*]({trel})", kind="twin", target=twin, explicit=True, spelling="noext-beside-directory")
+            add(f"[](/{twin})", kind="twin", target=twin, explicit=False, spelling="abs-noext-beside-directory")
+            add(f"[]({trel}.md)", kind="twin", target=twin, explicit=False, spelling="rel-beside-directory")
         frel = posixpath.relpath("flat.md", sd or ".")
         add(f"[{{M}} t]({frel}#flat-deep-only)", kind="missing-anchor", target="flat", explicit=True, spelling="rel-unanchored-page", missing="flat-deep-only")
         add(f"[{{M}} t](/flat.md#nope{k + 1})", kind="missing-anchor", target="flat", explicit=True, spelling="abs-unanchored-page", missing=f"nope{k + 1}")
@@ -133,8 +142,8 @@ def build_project(root, spec):
         (src / (sname + ".md")).write_text("\n".join(body))
         srcs[sname] = j
     commons = [dn(d, "common") for d in dirs]
-    (src / "index.md").write_text("# Index\n\n```{toctree}\n" + "\n".join(list(targets) + list(srcs) + commons + ["flat"]) + "\n```\n")
-    return src, targets, links, srcs
+    (src / "index.md").write_text("# Index\n\n```{toctree}\n" + "\n".join(list(targets) + list(srcs) + commons + ["flat"] + ([twin] if twin else [])) + "\n```\n")
+    return src, targets, links, srcs, twin
 
 
 class ProjectSystem(System):
@@ -172,7 +181,7 @@ class ProjectSystem(System):
         v, j = case
         spec = VARIANTS[v]
         root = self.root / f"{v}-{j}"
-        src, targets, links, srcs = build_project(root, spec)
+        src, targets, links, srcs, twin = build_project(root, spec)
         app = SphinxTestApp(srcdir=src, buildername="html")
         viol = []
         n = 0
@@ -240,6 +249,14 @@ class ProjectSystem(System):
                     if any(x in warns for x in (f"'{tname}'", m)) and "xref_missing" in "".join(w for w in warns.splitlines() if m in w):
                         bad("spurious-warning", "resolved link also warned")
                     dig.append((kind, norm))
+                elif kind == "twin":
+                    exp = posixpath.relpath(twin + ".html", sd or ".")
+                    uris = [posixpath.normpath(r.get("refuri", "")) for r in refs if isinstance(r, nodes.reference)]
+                    if uris != [exp] or len(refs) != 1:
+                        bad("uri", f"link to the page {twin}.md (a directory {twin}/ exists beside it): got {[(r.tagname, r.get('refuri'), r.get('filename')) for r in refs]}, expected one reference to {exp}")
+                    elif not L["explicit"] and refs[0].astext() != f"Twin of directory {twin}":
+                        bad("text", f"empty link text filled with {refs[0].astext()!r}", which="implicit")
+                    dig.append((kind, tuple(uris)))
                 elif kind == "label-p-empty":
                     tname = L["target"]
                     exp = posixpath.relpath(tname + ".html", sd or ".") + "#" + tid[tname]["label-p"]
